@@ -8,6 +8,7 @@ pub const CORPUS_README: &str = include_str!("../../corpus/readme_exprs.txt");
 /// Expressions named in the property records and found while probing (deviations and their
 /// conforming neighbours).
 pub const CORPUS_EXTRA: &[&str] = &[
+    "<**/\\<:0,1>/**/ǆ",
     "/x{a/**,**/b}",
     "**/b",
     "(?i)a[b]",
